@@ -111,7 +111,9 @@ fn h17_ws<const K: usize>(len: usize) {
     };
     std::mem::forget(cfg);
     let movie_ts: u32 = kani::any();
-    let mut s = Sparse::new(kani::any());
+    let start: u64 = kani::any();
+    kani::assume(start < (1 << 62));
+    let mut s = Sparse::new(start);
     let b: [u8; 2] = kani::any();
     let mut i = 0;
     while i < K {
@@ -132,22 +134,22 @@ fn h17_ws<const K: usize>(len: usize) {
 }
 
 #[kani::proof]
-#[kani::unwind(5)]
+#[kani::unwind(9)]
 fn q_h17ws__k1_len1() {
     h17_ws::<1>(1)
 }
 #[kani::proof]
-#[kani::unwind(5)]
+#[kani::unwind(9)]
 fn q_h17ws__k2_len1() {
     h17_ws::<2>(1)
 }
 #[kani::proof]
-#[kani::unwind(5)]
+#[kani::unwind(9)]
 fn t_h17ws__k2_len0() {
     h17_ws::<2>(0)
 }
 #[kani::proof]
-#[kani::unwind(6)]
+#[kani::unwind(9)]
 fn t_h17ws__k3_len1() {
     h17_ws::<3>(1)
 }
@@ -156,7 +158,7 @@ fn t_h17ws__k3_len1() {
 /// state hook: the tables of a track that saw one sample of `size` bytes), followed by the
 /// encoding of the sample entry that write_end updates (esds buffer size).
 #[kani::proof]
-#[kani::unwind(8)]
+#[kani::unwind(9)]
 fn q_h17end__aac_any_max_sample_size() {
     let cfg = track_config(Kind::Aac, 1000);
     let tw0 = match VerifTrackWriter::new(1, &cfg) {
